@@ -1,6 +1,7 @@
 package v1
 
 import (
+	"bytes"
 	"crypto/aes"
 	"crypto/cipher"
 	"crypto/hmac"
@@ -345,4 +346,85 @@ func VerifReadHeader() {
 	zzverif.Assert(rerr == io.EOF, "rest_ends_with_eof")
 	zzverif.Assert(zzverif.EqBytes(got, rest), "rest_of_stream_preserved")
 	zzverif.Cover("read_header_done")
+}
+
+// vBigReader: a source of n bytes (byte i = i mod 251) delivered in chunks taken from a short forked list of sizes
+type vBigReader struct {
+	data        []byte
+	pos         int
+	eofWithData bool
+	sizes       []int
+	reads       int
+}
+
+func (r *vBigReader) Read(p []byte) (int, error) {
+	rem := len(r.data) - r.pos
+	if rem == 0 {
+		return 0, io.EOF
+	}
+	n := rem
+	if r.reads < 2 {
+		n = r.sizes[zzverif.Choose("chunk_size", len(r.sizes))]
+	}
+	r.reads++
+	if n > rem {
+		n = rem
+	}
+	if n > len(p) {
+		n = len(p)
+	}
+	copy(p, r.data[r.pos:r.pos+n])
+	r.pos += n
+	if r.pos == len(r.data) && r.eofWithData {
+		return n, io.EOF
+	}
+	return n, nil
+}
+
+// The segment loop at the REAL segment size (seg_loop runs it with a symbolic size of at most 4, which cannot see
+// anything tied to the constants): plaintext lengths around the 64 KiB boundaries - 65 535, 65 536, 65 537, 131 072,
+// 131 073 - read in chunks of 65 535, 65 536, 65 537 bytes or everything at once (forked for the first two reads),
+// the end reported alone or together with the last data: the callback gets exactly the 64 KiB slices of the input, in
+// order, the last flag only on the final one, nothing for... (an empty input is covered by seg_loop), then a clean close.
+//
+//verif:harness prop=C01 name=seg_loop_real_size unwind=60 threads=1 race=off
+func VerifSegLoopRealSize() {
+	lens := []int{65536, 65537, 131073}
+	if zzverif.Thorough() {
+		lens = []int{65535, 65536, 65537, 131072, 131073}
+	}
+	L := lens[zzverif.Choose("L", len(lens))]
+	pattern := bytes.Repeat([]byte{0x5a}, L)
+	for k, at := range []int{0, 1, 65534, 65535, 65536, 65537, 131070, 131071, 131072, L - 1} { // markers around every boundary
+		if at < L {
+			pattern[at] = byte(k + 1)
+		}
+	}
+	src := &vBigReader{data: pattern, eofWithData: zzverif.Bool("eof_with_data"), sizes: []int{65535, 65536, 65537, 1 << 20}}
+	var calls []vSegCall
+	rec := func(out io.Writer, data []byte, num uint32, last bool) error {
+		calls = append(calls, vSegCall{data: append([]byte{}, data...), num: num, last: last})
+		return nil
+	}
+	pr, pw := io.Pipe()
+	processSegments(src, pw, rec, SegmentSize)
+	one := make([]byte, 1)
+	n, err := pr.Read(one)
+	zzverif.Assert(n == 0 && err == io.EOF, "seg_clean_close")
+	want := (L + SegmentSize - 1) / SegmentSize
+	zzverif.Assert(len(calls) == want, "seg_count")
+	off := 0
+	for i, c := range calls {
+		zzverif.Assert(c.num == uint32(i), "seg_numbered_in_order")
+		zzverif.Assert(c.last == (i == len(calls)-1), "seg_last_flag_only_on_final")
+		wantLen := SegmentSize
+		if i == len(calls)-1 {
+			wantLen = L - off
+		}
+		zzverif.Assert(len(c.data) == wantLen, "seg_sizes")
+		zzverif.Assert(zzverif.EqBytes(c.data, pattern[off:off+len(c.data)]), "seg_bytes")
+		off += len(c.data)
+	}
+	zzverif.Assert(off == L, "seg_covers_input")
+	zzverif.Cover("seg_loop_real_size_done")
 }
